@@ -32,7 +32,7 @@ CHECKS = {
  "C09": ("other", "contract-based deductive verification of LogicalType.logical_parse (union stages, exclusive-or, negation, conjunction fold) with abstract leaves",
          "Combinator semantics proved on the real logical_parse for all inputs and argument lists: union = exact type unchanged, else first accepting argument in stage order; exclusive-or = exactly one argument accepts the given input (order independent); "
          "negation; conjunction = fold of the running value; normal return leaves no recorded error. Construction algebra proved on combine (Any absorbs | and ^ and is ignored by &, duplicates dropped in order, nothing left gives Rule, built combination = kept operands), "
-         "combine_by (same-kind operands flatten, reading order), the operator dunders and __invert__ (double negation cancels). the LogicalMeta operators of data classes (&, |, ^, ~ and their reflections: reading order). One known finding (xor exact-type shortcut) - hence 'other', not 'proof'; _parse_arg is an interface.", "DESIGN 3 C09"),
+         "combine_by (same-kind operands flatten, reading order), the operator dunders and __invert__ (double negation cancels). the LogicalMeta operators of data classes (&, |, ^, ~ and their reflections: reading order; with a constrained type built on int / dict / set as the other operand no exception escapes). One known finding (xor exact-type shortcut) - hence 'other', not 'proof'; _parse_arg is an interface.", "DESIGN 3 C09"),
  "C19": ("other", "contract-based deductive verification: freshness / frame obligations on the real functions",
          "copy_value rebuilds list/set/frozenset/tuple/dict at every depth (fresh result, items are copies), ParserField.get_default hands out only copy_value results (force_default, default, default_factory) with the documented gates; "
          "every contracted parse function carries `no input mutation` frame obligations and `fresh result`; the generated __init__ only reads the caller's dict; an AST audit shows that no parse-path function (about 100) writes to a parser, field, class or transformer object. "
@@ -61,10 +61,12 @@ CHECKS = {
          "(C11 contracts) and Rule.parse returns only after every validator and raise_error; lax constraints keep the declared type; FunctionParser.parse_result converts by the return annotation. "
          "Induction STEPS of conformance as lemmas over the contracts: sequences, fixed-length tuples, mappings, unions (given the hypothesis for the argument types). One known finding (an int type with a fractional lax bound). "
          "The induction principle over all declared types is meta-level, and the remaining converters are not under contract - hence 'other'.", "DESIGN 3 C01"),
- "C13": ("other", "lemmas over the proved validator contracts, one per (constraint -> keyword) pair read from constant.py on every run; contract of generate_for_dataclass (bounded: two fields); audits",
+ "C13": ("other", "lemmas over the proved validator contracts, one per (constraint -> keyword) pair read from constant.py on every run; contracts of generate_for_dataclass (bounded: two fields; with and without a $defs registry), set_def and get_def_name; audits",
          "Keyword tables: for every pair of TYPE_CONSTRAINTS_MAP with a standard keyword (maximum, exclusiveMaximum, minimum, exclusiveMinimum, multipleOf, max/minLength, max/minItems, uniqueItems, pattern) the utype validator's acceptance implies the "
          "JSON Schema 2020-12 keyword predicate (15 lemmas, all inputs). Object structure (bounded, two fields): properties = fields usable in that direction, required = fields whose absence is an error (+ defaulted ones in the output view), "
-         "additionalProperties = the addition policy. Meta-schema validity, $defs, encoder output and nested generics are not decided - hence 'other'.", "DESIGN 3 C13"),
+         "additionalProperties = the addition policy. $defs registry: set_def binds the returned name to this type, never rebinds an earlier name and de-duplicates (termination of its name search assumed); with a registry "
+         "generate_for_dataclass returns a reference whose target is bound to THIS class, also when another class of the same name was published before (entry assumption: the registry's representation invariant). "
+         "Meta-schema validity, generate_for_rule's use of $defs, encoder output and nested generics are not decided - hence 'other'.", "DESIGN 3 C13"),
  "C15": ("other", "lemmas over the proved validator contracts, one per (keyword -> constraint) pair of CONSTRAINTS_MAP read from constant.py on every run",
          "For every standard keyword of the parser table the constraint it is mapped to accepts only values for which the keyword holds (the built type is at least as strict as the schema, 15 lemmas, all inputs). "
          "parse_type (unknown formats fall back, const / enum without type), parse_object (bounded: one property, seven representative names): a listed property is required, the attribute it is stored under is free in the base class, usable, "
